@@ -288,12 +288,98 @@ fn run_compositions(kvs: &[Kv], part: usize, parts: usize) -> Result<u64, String
                             if got != want {
                                 return Err(format!("search {} with {:?}({}) {:?}({}) gave {} expected {}", e.show(&leaves), lo, key_str(lok), hi, key_str(hik), kvs_str(&got), kvs_str(&want)));
                             }
+                            if lok.is_empty() && hik.is_empty() {
+                                // the same expression with every operand borrowed (impl Automaton for &T)
+                                let r = super::c18::real_ref(e, &leaves);
+                                let got = drain(apply_bounds(f.search(r.aut()), lo, lok, hi, hik).into_stream())?;
+                                n += 1;
+                                if got != want {
+                                    return Err(format!("search {} [operands by reference] with {:?}({}) {:?}({}) gave {} expected {}", e.show(&leaves), lo, key_str(lok), hi, key_str(hik), kvs_str(&got), kvs_str(&want)));
+                                }
+                            }
                         }
                     }
                 }
             }
         }
         Ok(n)
+    })
+    .and_then(|x| x)
+}
+
+/// FSTs with a wide node (labels with gaps, with and without 0x00 / 0xff),
+/// searched with every byte as a one- or two-byte lower bound.
+fn gap_kvs(n: usize, variant: usize, depth: usize) -> Vec<Kv> {
+    let mut labels: Vec<u8> = match variant {
+        0 => (0..n).map(|i| ((i * 256) / n) as u8).collect(),
+        1 => (0..n).map(|i| (256 - n + i) as u8).collect(),
+        2 => (0..n).map(|i| i as u8).collect(),
+        3 => (0..n).map(|i| (((i * 251) / n) as u8).saturating_add(if i + 1 == n { 4 } else { 0 })).collect(),
+        // dense low labels and one label at the very top (a long gap below 0xff)
+        _ => (0..n).map(|i| if i + 1 == n { 0xff } else { i as u8 }).collect(),
+    };
+    labels.sort();
+    labels.dedup();
+    let mut kvs: Vec<Kv> = vec![];
+    for (i, &b) in labels.iter().enumerate() {
+        let mut k = if depth == 1 { vec![b'p'] } else { vec![] };
+        k.push(b);
+        kvs.push((k.clone(), 3 * i as u64 + 1));
+        if i % 3 == 0 || i + 1 == labels.len() {
+            k.push(b'x');
+            kvs.push((k, 1000 + i as u64));
+        }
+    }
+    kvs.sort();
+    kvs
+}
+
+fn run_gaps(n: usize, variant: usize, depth: usize) -> Result<u64, String> {
+    let kvs = gap_kvs(n, variant, depth);
+    let bytes = front::build(Front::RawInsert, (3, 3), &kvs)?;
+    guard(|| {
+        let f = Fst::new(&bytes[..]).map_err(|e| format!("{:?}", e))?;
+        let mut cnt = 0u64;
+        fn one<A: Automaton>(f: &Fst<&[u8]>, kvs: &[Kv], aut: A, name: &str, acc: &dyn Fn(&[u8]) -> bool, depth: usize, cnt: &mut u64) -> Result<(), String>
+        where
+            A::State: Clone,
+        {
+            for b in 0..=255u8 {
+                let bound: Vec<u8> = if depth == 1 { vec![b'p', b] } else { vec![b] };
+                let bound2: Vec<u8> = bound.iter().cloned().chain([b'x']).collect();
+                for bk in [&bound, &bound2] {
+                    for lo in [Lo::Ge, Lo::Gt] {
+                        for (hi, hik) in [(Hi::None, vec![]), (Hi::Le, vec![0xffu8])] {
+                            let want: Vec<Kv> = kvs.iter().filter(|(k, _)| acc(k) && in_range(k, lo, bk, hi, &hik)).cloned().collect();
+                            let got = drain(apply_bounds(f.search(&aut), lo, bk, hi, &hik).into_stream())?;
+                            *cnt += 1;
+                            if got != want {
+                                return Err(format!("search {} with {:?}({}) {:?}({}) gave {} expected {}", name, lo, key_str(bk), hi, key_str(&hik), kvs_str(&got), kvs_str(&want)));
+                            }
+                            let mut sb = f.search_with_state(&aut);
+                            sb = match lo { Lo::Ge => sb.ge(bk), _ => sb.gt(bk) };
+                            if hi == Hi::Le { sb = sb.le(&hik); }
+                            let mut st = sb.into_stream();
+                            let mut gk: Vec<Kv> = vec![];
+                            while let Some((k, v, _)) = st.next() {
+                                gk.push((k.to_vec(), v.value()));
+                            }
+                            *cnt += 1;
+                            if gk != want {
+                                return Err(format!("search_with_state {} with {:?}({}) {:?}({}) gave {} expected {}", name, lo, key_str(bk), hi, key_str(&hik), kvs_str(&gk), kvs_str(&want)));
+                            }
+                        }
+                    }
+                }
+            }
+            Ok(())
+        }
+        one(&f, &kvs, AlwaysMatch, "AlwaysMatch", &|_| true, depth, &mut cnt)?;
+        one(&f, &kvs, Subsequence::new("x"), "Subsequence(x)", &|k| k.contains(&b'x'), depth, &mut cnt)?;
+        for t in all_dfas(2, ClassFn::Lt80, false).into_iter().step_by(5).take(6) {
+            one(&f, &kvs, &t, &t.describe(), &|k| t.accepts(k), depth, &mut cnt)?;
+        }
+        Ok(cnt)
     })
     .and_then(|x| x)
 }
@@ -314,6 +400,7 @@ fn dfa_from(v: &Value) -> TableDfa {
 pub fn replay(case: &Value) -> Result<String, String> {
     let kvs = kvs_from(&case["kvs"]);
     match case["kind"].as_str().unwrap() {
+        "gaps" => run_gaps(case["n"].as_u64().unwrap() as usize, case["variant"].as_u64().unwrap() as usize, case["depth"].as_u64().unwrap() as usize).map(|n| format!("{} searches agree", n)),
         "table" => {
             let geom = geom_from(&case["geom"]);
             let auts: Vec<TableDfa> = case["automata"].as_array().unwrap().iter().map(dfa_from).collect();
@@ -350,7 +437,7 @@ fn do_table(kvs: &[Kv], geom: Geom, auts: &Arc<Vec<TableDfa>>, bmax: usize, wrap
 pub fn plan(tier: Tier) -> Plan {
     let mut p = Plan::new("C04", "model_checking");
     let thorough = tier.thorough();
-    p.rule = "FST x bounds x generated contract-abiding automata: every table DFA with 1..2 states (thorough: 3) over two byte classes, every accepting set, every sound can_match assignment (true where an accepting state is reachable, free elsewhere); search and search_with_state through raw Fst (Map/Set wrappers on small sets); oracle = independent run of the table over each model key incl. the reported state; plus shipped automata/combinators/Levenshtein and regex-automata dense DFAs against specification predicates. every composition of depth <= 2 of AlwaysMatch/Str/Subsequence under StartsWith/Complement/Union/Intersection (real combinator types) against the explicit product DFA; accept_eof is never overridden. non-trivial = distinct (automaton, FST) pairs with >= 2 keys".into();
+    p.rule = "FST x bounds x generated contract-abiding automata: every table DFA with 1..2 states (thorough: 3) over two byte classes, every accepting set, every sound can_match assignment (true where an accepting state is reachable, free elsewhere); search and search_with_state through raw Fst (Map/Set wrappers on small sets); oracle = independent run of the table over each model key incl. the reported state; plus shipped automata/combinators/Levenshtein and regex-automata dense DFAs against specification predicates. every composition of depth <= 2 of AlwaysMatch/Str/Subsequence under StartsWith/Complement/Union/Intersection (real combinator types) against the explicit product DFA; wide nodes (fan-out 2..256, five label layouts incl. gaps below 0xff) searched with every byte as one- and two-byte lower bound under AlwaysMatch/Subsequence/six 2-state table DFAs; operands also passed by reference (impl Automaton for &T); accept_eof is never overridden. non-trivial = distinct (automaton, FST) pairs with >= 2 keys".into();
     p.assumptions = vec!["contract-abiding = deterministic table, sound can_match, default accept_eof".into()];
     let mut auts = all_dfas(1, ClassFn::IsA, false);
     auts.extend(all_dfas(2, ClassFn::IsA, false));
@@ -464,6 +551,21 @@ pub fn plan(tier: Tier) -> Plan {
                 }
             }));
         }
+    }
+    // (e2) wide nodes with gaps: every byte as lower bound of a search
+    for n in [2usize, 3, 31, 32, 33, 34, 40, 64, 100, 200, 255, 256] {
+        p.units.push(unit("wide-nodes-with-gaps-every-byte-as-lower-bound", format!("gaps fan-out {}", n), move |st, rep| {
+            for variant in 0..5usize {
+                for depth in 0..2usize {
+                    st.states += 1;
+                    st.nontrivial += 3;
+                    match run_gaps(n, variant, depth) {
+                        Ok(c) => { st.evals += c; st.transitions += c; st.count("gap_searches", c); }
+                        Err(msg) => rep.violation(format!("gaps fan-out {} variant {} depth {}", n, variant, depth), msg, json!({"kind": "gaps", "n": n, "variant": variant, "depth": depth, "kvs": []})),
+                    }
+                }
+            }
+        }));
     }
     // (f) every depth <= 2 composition of the shipped automata
     {
